@@ -459,8 +459,9 @@ func emptinessEdges(ifi *ssa.If, isLen func(ssa.Value) bool) (empty, nonEmpty *s
 // ---------- accept points (an enqueue that succeeded), through enqueue helpers ----------
 
 // acceptPoint: a program point right after a payload was accepted into the write queue.
-//   body != nil : the block entered when the select's send state was chosen (in fn)
-//   from != nil : a call of an enqueue helper in fn; the accepted side is where its error result is nil
+//
+//	body != nil : the block entered when the select's send state was chosen (in fn)
+//	from != nil : a call of an enqueue helper in fn; the accepted side is where its error result is nil
 type acceptPoint struct {
 	fn   *ssa.Function
 	body *ssa.BasicBlock
